@@ -93,6 +93,9 @@ type Config struct {
 	Mult       bool
 	AliasBias  bool // favour shifts, casts, slices of arrays, element updates
 	ScalarArgs bool // only scalar main arguments
+	// TextArrays: array elements are 8/16/32/64 bits wide so that array
+	// inputs can be written as hex text (two-party tools take text inputs).
+	TextArrays bool
 	// NoConst: no typed constants or loop-variable casts as operands (the
 	// compiler folds those: C12's business); constants then appear only as
 	// literal right operands next to a non-constant left operand.
@@ -1089,6 +1092,9 @@ func Generate(r *vrt.Rng, cfg Config) *Program {
 				ft := g.scalarType()
 				if cfg.Arrays && g.r.Intn(4) == 0 {
 					ft = Arr(g.r.Range(2, 4), Uint(vrt.Pick(g.r, []int{8, 16, 5})))
+					if cfg.TextArrays {
+						ft = Arr(g.r.Range(2, 4), Uint(vrt.Pick(g.r, []int{8, 16})))
+					}
 				}
 				st.Fields = append(st.Fields, Field{Name: fmt.Sprintf("f%d", len(st.Fields)), T: ft})
 			}
@@ -1143,6 +1149,9 @@ func Generate(r *vrt.Rng, cfg Config) *Program {
 			t = g.intType()
 		case k == 0 && cfg.Arrays:
 			t = Arr(g.r.Range(2, 6), vrt.Pick(g.r, []*Type{Uint(8), Uint(8), g.intType()}))
+			if cfg.TextArrays {
+				t = Arr(g.r.Range(2, 6), vrt.Pick(g.r, []*Type{Uint(8), Uint(8), Uint(16), Int(16), Uint(32), Int(64)}))
+			}
 		case k == 1 && cfg.Structs && len(g.types) > 0:
 			t = vrt.Pick(g.r, g.types)
 		case k == 2:
